@@ -1,9 +1,81 @@
 import RegexVerif.Sexp
+import RegexVerif.Model.Scan
 
 namespace RegexVerif.Driver
-open RegexVerif Sexp
+open RegexVerif Sexp RegexVerif.Scan
 
-/-- protocol lines with head `c03` (stub) -/
-def handleC03 (_args : List Sexp) : String := "(unimplemented)"
+/-- one table entry `(att found q after)`: `att` = `x` | `(index len)`; `(found, q)` the candidate
+    finder's answer from this position; `after` where a failed execution leaves the scan position -/
+structure C03Entry where
+  att : Option (Nat × Nat)
+  found : Bool
+  q : Nat
+  after : Nat
+
+def c03Entry? : Sexp → Option C03Entry
+  | .list [a, f, q, af] =>
+    match f.bool?, q.nat?, af.nat? with
+    | some f, some q, some af =>
+      match a with
+      | .atom "x" => some ⟨none, f, q, af⟩
+      | .list [i, l] =>
+        match i.nat?, l.nat? with
+        | some i, some l => some ⟨some (i, l), f, q, af⟩
+        | _, _ => none
+      | _ => none
+    | _, _, _ => none
+  | _ => none
+
+/-- executable versions of the hypotheses of `acceleration_transparent` on a finite table; the finder
+    and bump-along hypotheses are evaluated at the positions the scan can visit from `start` (the `\G`
+    origin of the table): the engine's finder is not meant to be called behind the origin -/
+def checkShape (rtl : Bool) (n : Nat) (attempt : Nat → Option (Nat × Nat)) : Bool :=
+  (List.range (n + 1)).all fun p => match attempt p with
+    | none => true
+    | some (i, l) => if rtl then i + l == p else i == p && decide (i + l ≤ n)
+
+def checkFinder (rtl : Bool) (n start : Nat) (finder : Nat → Bool × Nat) (attempt : Nat → Option (Nat × Nat)) : Bool :=
+  (scanOrder rtl n start).all fun pos =>
+    let (f, q) := finder pos
+    if rtl then
+      decide (q ≤ pos) &&
+      (if f then (List.range (n + 1)).all fun p => !(decide (q < p) && decide (p ≤ pos)) || (attempt p).isNone
+       else (List.range (n + 1)).all fun p => !(decide (p ≤ pos)) || (attempt p).isNone)
+    else
+      decide (pos ≤ q) && decide (q ≤ n) &&
+      (if f then (List.range (n + 1)).all fun p => !(decide (pos ≤ p) && decide (p < q)) || (attempt p).isNone
+       else (List.range (n + 1)).all fun p => !(decide (pos ≤ p)) || (attempt p).isNone)
+
+def checkAfter (rtl : Bool) (n start : Nat) (after : Nat → Nat) (attempt : Nat → Option (Nat × Nat)) : Bool :=
+  (scanOrder rtl n start).all fun q =>
+    (attempt q).isSome ||
+    (if rtl then decide (after q ≤ q) && (List.range (n + 1)).all fun p => !(decide (after q ≤ p) && decide (p < q)) || (attempt p).isNone
+     else decide (q ≤ after q) && decide (after q ≤ n) &&
+       (List.range (n + 1)).all fun p => !(decide (q < p) && decide (p ≤ after q)) || (attempt p).isNone)
+
+def checkMinLen (rtl : Bool) (n L : Nat) (attempt : Nat → Option (Nat × Nat)) : Bool :=
+  (List.range (n + 1)).all fun p => (attempt p).isNone || (if rtl then decide (L ≤ p) else decide (L ≤ n - p))
+
+def spanSexp : Option (Nat × Nat) → Sexp
+  | none => .atom "x"
+  | some (i, l) => .list [ofNat i, ofNat l]
+
+/-- `(c03 (n N) (rtl b) (minlen L) (start s) (prevlen k) (row (att found q after)…))` ↦
+    `(ok <scan> <naive> (hyp shape finder after minlen))` -/
+def handleC03 (args : List Sexp) : String :=
+  let get (key : String) : Option Sexp := (lookup key args).bind (·.head?)
+  match (get "n").bind nat?, (get "rtl").bind bool?, (get "minlen").bind nat?, (get "start").bind nat?,
+        (get "prevlen").bind int?, (lookup "row" args).bind (·.mapM c03Entry?) with
+  | some n, some rtl, some minLen, some start, some prevLen, some row =>
+    let tbl := row.toArray
+    let attempt : Nat → Option (Nat × Nat) := fun p => (tbl[p]?).bind (·.att)
+    let finder : Nat → Bool × Nat := fun p => match tbl[p]? with | some e => (e.found, e.q) | none => (false, p)
+    let after : Nat → Nat := fun p => match tbl[p]? with | some e => e.after | none => p
+    let sc := (scan finder after attempt start prevLen rtl n minLen).map (·.span)
+    let nv := naive attempt start prevLen rtl n
+    toString (Sexp.list [.atom "ok", spanSexp sc, spanSexp nv,
+      .list [.atom "hyp", ofBool (checkShape rtl n attempt), ofBool (checkFinder rtl n start finder attempt),
+             ofBool (checkAfter rtl n start after attempt), ofBool (checkMinLen rtl n minLen attempt)]])
+  | _, _, _, _, _, _ => "(bad-op)"
 
 end RegexVerif.Driver
